@@ -103,6 +103,18 @@ def check_case(ctx, case):
         if not o.ok:
             ctx.unexpected(o, "write_ascii")
         else:
+            if case.get("failed_loads_first"):
+                # loads that cannot succeed (no file name, a missing file, a directory, a file of another kind, an unknown type), made
+                # right before the judged one; not judged themselves
+                g = os.path.join(d, "not_a_catalog.csv")
+                with open(g, "w") as f:
+                    f.write("lon,lat,mag\n1,2\nabc,,,,\n")
+                for bad in (lambda: csep.load_catalog(None), lambda: csep.load_catalog(os.path.join(d, "missing.csv")), lambda: csep.load_catalog(d),
+                            lambda: csep.load_catalog(g), lambda: csep.load_catalog(p, type="no-such-type"), lambda: csep.load_catalog(g, format="csep"),
+                            # the class's own entry point (csep.load_catalog ends there), handed something that is not a file name
+                            lambda: CSEPCatalog.load_catalog(None), lambda: CSEPCatalog.load_catalog(12.5), lambda: CSEPCatalog.load_catalog(g)):
+                    call(bad)
+                ctx.count("ascii_loads_after_failed_loads")
             o = call(csep.load_catalog, p)
             if not o.ok:
                 ctx.unexpected(o, "load_catalog_ascii")
@@ -236,6 +248,8 @@ def cases(draw):
         c["append_to_empty"] = True
     if draw(st.integers(0, 3)) == 0:
         c["pathlib"] = True
+    if draw(st.integers(0, 2)) == 0:
+        c["failed_loads_first"] = True
     if n and draw(st.integers(0, 15)) == 0:
         c["repeat"] = draw(st.sampled_from([50, 200]))
     return draw_tz(draw, c)
